@@ -1,6 +1,6 @@
 (* Property C09: maps survive write-read; axis order and ASU-only storage do not change the map.
    Statements only; proofs live in Map/*Proofs.v. *)
-From GV Require Import Map.GridIndex Map.GridIndexProofs Map.GridOps Map.Setup Map.MapSg Map.ScaledOps Map.SetupProofs.
+From GV Require Import Map.GridIndex Map.GridIndexProofs Map.GridOps Map.Setup Map.MapSg Map.ScaledOps Map.SetupProofs Map.BrickEnd.
 Local Open Scope Z_scope.
 
 (* modulo() (C remainder semantics) is the mathematical residue for every int a and positive n *)
@@ -72,3 +72,11 @@ Theorem C09_setup_permutation : forall h g dflt smode pos s0 s1 s2 n0 n1 n2 nu n
        nth (Z.to_nat i) (g_data g') dflt = dflt).
 Proof. exact setup_permutation. Qed.
 Print Assumptions C09_setup_permutation.
+
+(* the end indices of the ASU brick (AsuBrick::uvw_end, Map/BrickEnd.v): along an axis sampled with n points, the grid
+   points below the end are EXACTLY the points u with u/n <= size/24 (bound included, size < 24) or u/n < size/24
+   (size = 24: the whole cell, end = n) - no point of the brick is cut off and none outside it is taken, for every n *)
+Theorem C09_brick_end_exact : forall size n u, 0 <= size -> 0 < n -> 0 <= u ->
+  (u < uvw_end1 size n <-> if brick_incl size then 24 * u <= size * n else 24 * u < size * n).
+Proof. exact uvw_end1_spec. Qed.
+Print Assumptions C09_brick_end_exact.
